@@ -15,6 +15,7 @@ import (
 	"github.com/btcsuite/btcd/wire/v2"
 	"github.com/lightninglabs/neutrino/blockntfns"
 	"github.com/lightninglabs/neutrino/internal/verifbubble"
+	"github.com/lightninglabs/neutrino/internal/verifdetrt"
 	"github.com/lightninglabs/neutrino/internal/verifeng"
 )
 
@@ -77,7 +78,7 @@ type c11client struct {
 
 const c11Burst = 25
 
-func c11Body(t *testing.T, depth, nclients int, bursts bool) func(c *verifeng.Chooser) {
+func c11Body(t *testing.T, depth, nclients int, bursts int) func(c *verifeng.Chooser) {
 	return func(c *verifeng.Chooser) {
 		out := verifbubble.Run(t, func() { c11Run(c, depth, nclients, bursts) })
 		switch {
@@ -96,10 +97,16 @@ func c11Body(t *testing.T, depth, nclients int, bursts bool) func(c *verifeng.Ch
 	}
 }
 
-func c11Run(c *verifeng.Chooser, depth, nclients int, bursts bool) {
+// bursts: 0 none; 1 one scheduler/select deviation per execution; 2 one
+// preemption at a synchronisation point per execution, API calls in pairs
+func c11Run(c *verifeng.Chooser, depth, nclients int, bursts int) {
 	var burst *verifbubble.Burst
-	if bursts {
+	if bursts > 0 {
 		burst = verifbubble.NewBurst(c)
+	}
+	if bursts == 2 && burst != nil {
+		burst.NoSched, burst.NoSelect = true, true
+		burst.Sync = verifdetrt.SyncMutex | verifdetrt.SyncSpawn | verifdetrt.SyncChan
 	}
 	src := &c11src{ch: make(chan blockntfns.BlockNtfn)}
 	m := blockntfns.NewSubscriptionManager(src)
@@ -376,6 +383,73 @@ func c11Run(c *verifeng.Chooser, depth, nclients int, bursts bool) {
 				menu = append(menu, ev{fmt.Sprintf("drain(c%d)", i), func() bool { return drain(i) }})
 			}
 		}
+		if bursts == 2 && !stopped {
+			// two API calls by two callers in one step (the goroutine
+			// launched last runs first): neither may block for ever
+			pair := func(name string, first, second func() (any, error), after func(a, b *verifbubble.Task) bool) {
+				menu = append(menu, ev{name, func() bool {
+					a := verifbubble.Go(name+"/1", first)
+					b := verifbubble.Go(name+"/2", second)
+					verifbubble.Wait()
+					if !a.Done() || !b.Done() {
+						c.Fail("blocked", "concurrent-call-blocks", "%s: a call has not returned although every goroutine is idle (first returned: %v, second returned: %v)", name, a.Done(), b.Done())
+						return false
+					}
+					return after(a, b)
+				}})
+			}
+			stopCall := func() (any, error) { m.Stop(); return nil, nil }
+			afterStop := func() {
+				stopped = true
+				for _, cl := range clients {
+					cl.frozen = true
+				}
+			}
+			for i := range clients {
+				i := i
+				cl := clients[i]
+				if cl.state == "" && cl.pending == nil {
+					var backlog []uint32
+					for _, n := range src.emitted {
+						backlog = append(backlog, n.Height())
+					}
+					subCall := func() (any, error) { return m.NewSubscription(0) }
+					done := func(sub *verifbubble.Task) bool {
+						afterStop()
+						if sub.Err == nil {
+							// registered before the manager stopped: it
+							// gets (a prefix of) the backlog, then its
+							// channel is closed
+							cl.sub = sub.Val.(*blockntfns.Subscription)
+							cl.state = "sub"
+							cl.expect = backlog
+							cl.frozen = true
+						}
+						return true
+					}
+					pair(fmt.Sprintf("NewSubscription(c%d,from=0) and Stop at once, Stop running first", i), subCall, stopCall,
+						func(a, b *verifbubble.Task) bool { return done(a) })
+					pair(fmt.Sprintf("NewSubscription(c%d,from=0) and Stop at once, NewSubscription running first", i), stopCall, subCall,
+						func(a, b *verifbubble.Task) bool { return done(b) })
+					break
+				}
+			}
+			for i := range clients {
+				i := i
+				cl := clients[i]
+				if cl.state == "sub" && cl.cancels == 0 {
+					cancelCall := func() (any, error) { cl.sub.Cancel(); return nil, nil }
+					canc := func() { cl.cancels++; cl.state = "cancelled"; cl.frozen = true }
+					pair(fmt.Sprintf("Cancel(c%d) and Stop at once, Stop running first", i), cancelCall, stopCall,
+						func(a, b *verifbubble.Task) bool { canc(); afterStop(); return true })
+					pair(fmt.Sprintf("Cancel(c%d) and Stop at once, Cancel running first", i), stopCall, cancelCall,
+						func(a, b *verifbubble.Task) bool { canc(); afterStop(); return true })
+					pair(fmt.Sprintf("Cancel(c%d) by two callers at once", i), cancelCall, cancelCall,
+						func(a, b *verifbubble.Task) bool { canc(); cl.cancels++; return true })
+					break
+				}
+			}
+		}
 		if !stopped {
 			menu = append(menu, ev{"stop", func() bool {
 				if _, ok := act("Stop", func() (any, error) { m.Stop(); return nil, nil }); !ok {
@@ -469,7 +543,7 @@ func TestVFXC11(t *testing.T) {
 		}
 		fmt.Sscanf(v.Config, "depth=%d clients=%d", &depth, &ncl)
 		e := verifeng.FromEnv(v.Harness, v.Config)
-		_, x, err := e.ReplayFile(rp, c11Body(t, depth, ncl, strings.Contains(v.Config, "in-burst")))
+		_, x, err := e.ReplayFile(rp, c11Body(t, depth, ncl, map[bool]int{true: 1}[strings.Contains(v.Config, "in-burst")]+map[bool]int{true: 2}[strings.Contains(v.Config, "preemption")]))
 		if err != nil {
 			t.Fatal(err)
 		}
@@ -484,7 +558,7 @@ func TestVFXC11(t *testing.T) {
 		return
 	}
 	e := verifeng.FromEnv("C11-subscriptions", fmt.Sprintf("depth=%d clients=%d burst=%d", depth, ncl, c11Burst))
-	e.Run(c11Body(t, depth, ncl, false))
+	e.Run(c11Body(t, depth, ncl, 0))
 	if err := verifeng.AppendResult(&e.Res); err != nil {
 		t.Fatal(err)
 	}
@@ -494,7 +568,15 @@ func TestVFXC11(t *testing.T) {
 	bd := depth - 2
 	e = verifeng.FromEnv("C11-subscriptions", fmt.Sprintf("depth=%d clients=%d burst=%d in-burst deviations<=1", bd, ncl, c11Burst))
 	e.MaxDev = 1
-	e.Run(c11Body(t, bd, ncl, true))
+	e.Run(c11Body(t, bd, ncl, 1))
+	if err := verifeng.AppendResult(&e.Res); err != nil {
+		t.Fatal(err)
+	}
+	// API calls in pairs with one preemption at a synchronisation point
+	// (DESIGN 3.9)
+	e = verifeng.FromEnv("C11-subscriptions", fmt.Sprintf("depth=%d clients=%d burst=%d preemption at a synchronisation point<=1", bd, ncl, c11Burst))
+	e.MaxDev = 1
+	e.Run(c11Body(t, bd, ncl, 2))
 	if err := verifeng.AppendResult(&e.Res); err != nil {
 		t.Fatal(err)
 	}
